@@ -428,6 +428,15 @@ func judge(c *mc.Ctx, rs *rootSpec, hist []world.Step, doCorpus bool, count bool
 						if ctxSources[src] || (strings.HasPrefix(src, "rendering-of-ancestor") && len(ctxSources) > 0) {
 							continue
 						}
+						// as in the context walk: when the policy was switched on mid-session, a result saved
+						// before the switch (and renderings embedding it) legitimately holds what expressions
+						// could see then
+						if rs.Policy == "none" && (strings.HasPrefix(src, "results(") || strings.HasPrefix(src, "rendering-of-ancestor")) {
+							if count {
+								c.Inc("stale_results_not_judged")
+							}
+							continue
+						}
 						_ = fn
 						add("template-depends-on-urn:"+src, "under redaction template %s evaluates differently for the twins: %q vs %q", tpl, oa, ob)
 					}
